@@ -325,6 +325,26 @@ def bracket_grammar_rules(prog, chk):
         elif first["kind"] == "call" and starts_with_close(first["text"]):
             found = True
     chk.floor("R8.8", "bracket_expression alternatives", n_alt, 1)
+    # the inversion marker is taken whatever follows it: a lookahead in the inversion rule (`['!'|'^'] !"]"`) turns `[!]a]` into the
+    # one-member set `[!]` followed by the literal text `a]`
+    inv_rules = set()
+    for alt in peg.split_alternatives(G["bracket_expression"]):
+        for e in peg.elements(alt):
+            if e.get("label") == "invert" or "invert" in e["text"]:
+                for t in e["toks"]:
+                    if t.kind == 'ident' and t.text in G:
+                        inv_rules.add(t.text)
+    for r in sorted(inv_rules):
+        for alt in peg.split_alternatives(G[r]):
+            els = [e for e in peg.elements(alt) if e["kind"] != "action"]
+            look = [e for e in els if e["prefix"]]
+            if look or len(els) != 1:
+                chk.fail("R8.8", "brush_parser::pattern::" + r, "inversion-depends-on-what-follows",
+                         "the inversion marker of a bracket expression is recognised only under a condition on the next character (%s in rule %s): `[!]a]` / `[^]]` are no "
+                         "longer negated sets with a literal `]` — `[[ x == [!]a] ]]` stops matching" % (" ".join(e["prefix"] + e["text"] for e in els), r))
+                break
+        else:
+            chk.ok("R8.8", "inversion-unconditional:" + r, "the inversion marker is a single character class with no lookahead", function="brush_parser::pattern::" + r)
     if found:
         chk.ok("R8.8", "leading-close-bracket-is-a-member", "the member list may begin with a literal ']'", function="brush_parser::pattern::bracket_expression")
     else:
